@@ -781,6 +781,17 @@ def run(chk):
         schemas, base = bundled()
         bundled_types = [t for s in schemas for t in ([s[2]] if s[0] == "map" else [t for _, t in s[2]])]
         chk.search_hook = search(chk)
+        # side condition of C12_result_complete_sound_float_free, evaluated on the REAL bundled schemas
+        I = Interner()
+        term = g_list([g_schema(s_, I) for s_ in schemas])
+        rc, outp = vlib.coq_eval(AREA, vlib.COQ_HEADER + COQ_IMPORTS + "From Config Require Import Spec_C12 Proofs_Schema.\n"
+                                 + I.header() + f"Eval vm_compute in (if schemas_float_free {term} then [] else [0]) : list Z.\n")
+        ff = vlib.parse_nat_list(outp)
+        names = [s_[1] for s_ in schemas]
+        chk.obligation("side-condition:float-free-schemas", "correspondence",
+                       rc == 0 and ff == [] and len(set(names)) == len(names),
+                       "" if rc == 0 and ff == [] else "a bundled schema declares a bounded Float (or names repeat): "
+                       "C12_result_complete_sound_float_free no longer applies to the bundled schemas; " + outp[-500:])
         import time
 
         t0 = time.time()
